@@ -28,7 +28,7 @@ PLUS_MODES = ["plus-only", "plain-only", "both", "none"]
 PLUS_IDS = ["LGPL-2.1", "Apache-1.0", "EUPL-1.2", "AGPL-3.0", "GPL-1.0", "MPL-1.1", "GFDL-1.3"]
 # top-level directory names on either side of '.' and '/' in code-point order (the root REUSE.toml's directory is spelt `.`, a
 # nested one `name`, a path `name/…`), and on either side of 'R' (REUSE.toml)
-ODD_LOW = [" spaced", "!a", "#tmp", "$d", "%p", "&e", "'q", "(third-party)", "+vendor", ",c", "-x"]
+ODD_LOW = [" spaced", "!a", "#tmp", "$d", "%p", "&e", "'q", "(third-party)", "+vendor", ",c", "-x", "+", "-", "!"]
 ODD_HIGH = [".dot", "0num", ":c", ";s", "=e", "@at", "Q1", "REUSE", "S1", "Zed", "_u", "a0", "~t", "\u00e9tage"]
 TOML_KINDS = ("toml", "toml-partial", "subprojects-root", "git", "git-submodule")
 
